@@ -44,6 +44,19 @@ def _all_graphs(g):
                     yield from _all_graphs(s)
 
 
+def _keyed(g, key="root"):
+    """(stable key, graph) for g and every nested graph; keys are built from owner node names and attribute names, never from
+    graph names, so graphs sharing a name stay distinct and the key survives reordering"""
+    yield key, g
+    for n in g:
+        for an, a in n.attributes.items():
+            if isinstance(a, ir.Attr) and a.type == ir.AttributeType.GRAPH:
+                yield from _keyed(a.value, f"{key}/{n.name}.{an}")
+            elif isinstance(a, ir.Attr) and a.type == ir.AttributeType.GRAPHS:
+                for i, sg in enumerate(a.value):
+                    yield from _keyed(sg, f"{key}/{n.name}.{an}[{i}]")
+
+
 def needs(g):
     """reference dependency relation of graph g: node -> set of same-graph producers it must follow"""
     members = {id(n): n for n in g}
@@ -169,7 +182,7 @@ def build_nested(depth, P):
         if P("t0_cap_s0"):
             t0_in.append(s0.outputs[0])
         t0 = ir.Node("", "T0", t0_in, name="t0")
-        deep = ir.Graph([], [t0.outputs[0]], nodes=[t0], name="deep")
+        deep = ir.Graph([], [t0.outputs[0]], nodes=[t0], name="body")  # same (non-empty) name as the enclosing body on purpose
         s1 = ir.Node("", "If", [x], attributes=[ir.AttrGraph("then_branch", deep)], name="s1")
         inner_nodes = [s0, s1]
     if P("inner_reversed"):
@@ -205,8 +218,9 @@ def verdict(make, rewire=None):
     problems = []
     g = make()
     graphs = list(_all_graphs(g))
-    before = {gr.name: [n.name for n in gr] for gr in graphs}
-    was_valid = {gr.name: order_valid(gr) for gr in graphs}
+    K = {id(gr): k for k, gr in _keyed(g)}
+    before = {K[id(gr)]: [n.name for n in gr] for gr in graphs}
+    was_valid = {K[id(gr)]: order_valid(gr) for gr in graphs}
     cyc = has_cycle(g)
     try:
         g.sort()
@@ -216,7 +230,7 @@ def verdict(make, rewire=None):
     except Exception as e:  # noqa: BLE001
         raised = type(e).__name__
         problems.append(f"sort raised {raised}: {e}")
-    after = {gr.name: [n.name for n in gr] for gr in graphs}
+    after = {K[id(gr)]: [n.name for n in gr] for gr in graphs}
     if cyc:
         if raised != "ValueError":
             problems.append(f"dependencies contain a cycle but sort did not raise ValueError (raised={raised}); order {before} -> {after}")
@@ -227,25 +241,25 @@ def verdict(make, rewire=None):
             problems.append(f"acyclic graph but sort raised {raised}")
         else:
             for gr in graphs:
-                if sorted(after[gr.name]) != sorted(before[gr.name]):
-                    problems.append(f"graph {gr.name} lost or gained nodes: {before[gr.name]} -> {after[gr.name]}")
+                if sorted(after[K[id(gr)]]) != sorted(before[K[id(gr)]]):
+                    problems.append(f"graph {gr.name} lost or gained nodes: {before[K[id(gr)]]} -> {after[K[id(gr)]]}")
                 if not order_valid(gr):
-                    problems.append(f"graph {gr.name} not topologically ordered after sort: {after[gr.name]} (was {before[gr.name]})")
-                if was_valid[gr.name] and all(was_valid.values()) and after[gr.name] != before[gr.name]:
-                    problems.append(f"graph {gr.name} was already ordered but changed: {before[gr.name]} -> {after[gr.name]}")
+                    problems.append(f"graph {gr.name} not topologically ordered after sort: {after[K[id(gr)]]} (was {before[K[id(gr)]]})")
+                if was_valid[K[id(gr)]] and all(was_valid.values()) and after[K[id(gr)]] != before[K[id(gr)]]:
+                    problems.append(f"graph {gr.name} was already ordered but changed: {before[K[id(gr)]]} -> {after[K[id(gr)]]}")
             # determinism: sorting again changes nothing; an isomorphic copy sorts identically; Function.sort and the pass agree
             g.sort()
-            again = {gr.name: [n.name for n in gr] for gr in graphs}
+            again = {K[id(gr)]: [n.name for n in gr] for gr in graphs}
             if again != after:
                 problems.append(f"second sort changed the order: {after} -> {again}")
             g2 = make()
             g2.sort()
-            after2 = {gr.name: [n.name for n in gr] for gr in _all_graphs(g2)}
+            after2 = {k: [n.name for n in gr] for k, gr in _keyed(g2)}
             if after2 != after:
                 problems.append(f"an identical graph sorted differently: {after} vs {after2}")
             g3 = make()
             ir.Function("d", "f", graph=g3, attributes=[]).sort()
-            after3 = {gr.name: [n.name for n in gr] for gr in _all_graphs(g3)}
+            after3 = {k: [n.name for n in gr] for k, gr in _keyed(g3)}
             if after3 != after:
                 problems.append(f"Function.sort disagrees with Graph.sort: {after3} vs {after}")
             g4 = make()
@@ -255,11 +269,11 @@ def verdict(make, rewire=None):
             f6 = ir.Function("d", "h", graph=make(), attributes=[])
             m = ir.Model(g4, ir_version=10, functions=[f5, f6])
             res = topological_sort.TopologicalSortPass()(m)
-            after4 = {gr.name: [n.name for n in gr] for gr in _all_graphs(res.model.graph)}
+            after4 = {k: [n.name for n in gr] for k, gr in _keyed(res.model.graph)}
             if after4 != after:
                 problems.append(f"TopologicalSortPass disagrees with Graph.sort: {after4} vs {after}")
             for fn in res.model.functions.values():
-                after5 = {gr.name: [n.name for n in gr] for gr in _all_graphs(fn.graph)}
+                after5 = {k: [n.name for n in gr] for k, gr in _keyed(fn.graph)}
                 if after5 != after:
                     problems.append(f"TopologicalSortPass left function {fn.name} in another order than Function.sort gives: {after5} vs {after}")
             # history independence: after a successful sort, change a dependency WITHOUT touching any node list, sort again
@@ -271,13 +285,13 @@ def verdict(make, rewire=None):
                     ni.resize_inputs(len(ni.inputs) + 1)
                     ni.replace_input_with(len(ni.inputs) - 1, nj.outputs[0])
                     cyc2 = has_cycle(g)
-                    before2 = {gr.name: [n.name for n in gr] for gr in graphs}
+                    before2 = {K[id(gr)]: [n.name for n in gr] for gr in graphs}
                     try:
                         g.sort()
                         r2 = None
                     except ValueError:
                         r2 = "ValueError"
-                    now = {gr.name: [n.name for n in gr] for gr in graphs}
+                    now = {K[id(gr)]: [n.name for n in gr] for gr in graphs}
                     if cyc2:
                         if r2 != "ValueError" or now != before2:
                             problems.append(f"after a sort, a rewiring that creates a cycle: raised={r2}, order {before2} -> {now}")
